@@ -14,8 +14,8 @@ C17Pars == { [M |-> 125, chi |-> 3, asm |-> <<0, 1>>, phiOl |-> 7, x |-> <<5, 0>
 \* construction and a few updates, then persistence only
 Grow(m) == \/ \E c \in Configs, s \in Seeds, tx \in Textures : Create(m, c, s, tx, InitO(s, c.n, tx), InitF(c.n, tx))
            \/ \E fl \in Flows, par \in Pars :
-                 cfg[m] # NULL /\ UpdateOk(m, fl, par, NoCb, NextO(Last(hist[m]), cfg[m], cfg[m].regime, fl, par),
-                                                               NextF(Last(hist[m]), cfg[m], cfg[m].regime, fl, par))
+                 cfg[m] # NULL /\ UpdateOk(m, fl, par, NoCb, NextOP(Last(hist[m]), cfg[m], cfg[m].regime, fl, par, Fm[m]),
+                                                               NextFP(Last(hist[m]), cfg[m], cfg[m].regime, fl, par, Fm[m]))
 C17Next == \E m \in Minerals : Grow(m) \/ DiskNext(m) \/ LoadBadName(m)
 C17Spec == Init /\ [][C17Next]_vars
 \* ---- exhaustive enumeration for replay: three pre-built minerals with distinct configurations,
